@@ -396,6 +396,7 @@ package store
 //@   ensures [C06] ends: len(headers) > 0 ==> apSet(s.contiguousHead) && apSet(s.tailHeader)
 //@   ensures [C06] never-deletes: forall k Key @ dsHas[k] :: old(dsHas)[k] ==> dsHas[k]
 //@   ensures [C06] nothing-lost: forall h uint64 @ has(s.pending.headers, h) :: old(has(s.pending.headers, h)) ==> has(s.pending.headers, h) || dsHas[kHeight(h)]
+//@   ensures [C06] drained-on-stop: headers == nil ==> forall h uint64 @ has(s.pending.headers, h) :: !has(s.pending.headers, h) -- the stop signal flushes everything that was accepted, whatever it takes
 //@   ensures [C17] head-monotone: old(apSet(s.contiguousHead)) ==> apSet(s.contiguousHead) && apVal(s.contiguousHead).Height() >= old(apVal(s.contiguousHead).Height())
 //@   before Notify [C12] stored-before-announced: forall i int :: 0 <= i && i < len(headers) ==> has(s.pending.headers, headers[i].Height())
 //@   before ensureInit [C17] readable-before-published: forall i int :: 0 <= i && i < len(headers) ==> has(s.pending.heights, hexStr(headers[i].Hash()))
